@@ -159,6 +159,16 @@ pub fn zz_safe_owned_vec(n: u8, i: usize) -> u8 {
     if i < v.len() { return v[i]; }
     0
 }
+pub fn zz_unsafe_owned_struct_field(n: u8) -> u8 {
+    let mut s = ZzS { sp: 0, stack: vec![n, n] };
+    if s.sp < s.stack.len() { s.sp += 5; return s.stack[s.sp]; }
+    0
+}
+pub fn zz_unsafe_tuple_field(v: &Vec<u8>, i: usize) -> u8 {
+    let mut t = (i, 0usize);
+    if t.0 < v.len() { t.0 += 9; return v[t.0]; }
+    0
+}
 pub fn zz_safe_guard(v: &Vec<u8>, i: usize) -> u8 {
     if i < v.len() { return v[i]; }
     0
